@@ -270,6 +270,7 @@ package history
 //@   ensures [shows-entry] hcur(h) != nil && h.hpos >= 1 && h.hpos <= len(entries(hcur(h))) && h.hpos != old(h.hpos) && (curlh(h) == nil || len(curlh(h).items) == 0) ==> *h.line == runes(entries(hcur(h))[len(entries(hcur(h))) - h.hpos])
 //@   ensures [shows-edited-entry] hcur(h) != nil && h.hpos >= 1 && h.hpos <= len(entries(hcur(h))) && h.hpos != old(h.hpos) && curlh(h) != nil && len(curlh(h).items) > 0 ==> *h.line == runes(curlh(h).items[len(curlh(h).items) - 1].line)
 //@   ensures [saves-typed-text] old(h.hpos) == -1 && pos > 0 && hcur(h) != nil && len(entries(hcur(h))) > 0 ==> typedlh(h) != nil && len(typedlh(h).items) > 0 && typedlh(h).items[len(typedlh(h).items) - 1].line == old(htext(h))
+//@   ensures [back-down-restores-typed-text] hcur(h) != nil && len(entries(hcur(h))) > 0 && old(h.hpos) >= 1 && old(h.hpos) + pos <= 0 && old(typedlh(h)) != nil && old(len(typedlh(h).items)) > 0 ==> h.hpos == -1 && *h.line == runes(old(typedlh(h).items[len(typedlh(h).items) - 1].line))
 //@   ensures [step] hcur(h) != nil && len(entries(hcur(h))) > 0 && old(h.hpos) >= 1 && old(h.hpos) + pos >= 1 && old(h.hpos) + pos <= len(entries(hcur(h))) && !(old(h.hpos) == len(entries(hcur(h))) && pos == 1) ==> h.hpos == old(h.hpos) + pos
 
 //@ func (*Sources).Fetch
